@@ -130,7 +130,12 @@ def execute(stim):
             st['got'] = dict(data)
             value = data.get('value')
             if getattr(self, 'hfault', None) is not None and value == 666:
-                raise fire('handler', self.hfault, True)
+                err = fire('handler', self.hfault, True)
+                if getattr(self, 'hexc', 'boom') == 'invalid':
+                    # the handler fails with one of the library's own exceptions (a call it made was
+                    # refused): an error inside a handler like any other
+                    raise edzed.EdzedInvalidState('scripted: refused inside the handler') from err
+                raise err
             self.set_output(value)
             if getattr(self, 'ctl', None) is not None and value == 7:
                 self.ctl.send(self)
@@ -214,6 +219,7 @@ def execute(stim):
                 blk = counting(PlainBase, b, conf)(name)
                 if fault == 'handler':
                     blk.hfault = b
+                    blk.hexc = conf.get('hexc', 'boom')
             elif k == 'catcher':
                 blk = counting(CatcherBase, b, conf)(name)
                 blk.fwd = edzed.Event(f'b{conf["to"]}', 'put')
@@ -356,7 +362,7 @@ def execute(stim):
             ret = edzed.ExtEvent(dest, op.get('etype', 'put'), **ckw).send(*args, **kw)
             outcome = 'delivered'
         except edzed.EdzedInvalidState:
-            outcome = 'invalid'
+            outcome = 'invalid' if st['got'] is None else 'delivered'      # (refused / the handler failed)
         except Boom:
             # the handler ran and failed - or the early initialisation of the destination failed
             outcome = 'delivered' if st['got'] is not None else 'initfail'
